@@ -252,7 +252,16 @@ pub fn c15_case(rs: u64, _nonce: u64, replay: Option<Vec<u32>>) -> CaseOutcome {
             }
             // Array helpers.
             6 => {
-                let k = 1 + s.w.sim.tape.choose(5, "array_len");
+                let k = if crate::tape::gen() >= 2 { s.w.sim.tape.pick(&[1usize, 2, 3, 4, 5, 0], "array_len") } else { 1 + s.w.sim.tape.choose(5, "array_len") };
+                if k == 0 {
+                    // An empty array over an object that currently holds entries: the count must
+                    // end up zero.
+                    let od = &mut s.w.sim.seg.devices[0].coe.as_mut().unwrap().od;
+                    od.insert((index, 0), vec![2]);
+                    od.insert((index, 1), vec![0x11, 0x22]);
+                    od.insert((index, 2), vec![0x33, 0x44]);
+                    *kinds.entry("array-empty".into()).or_insert(0) += 1;
+                }
                 let vals: Vec<u16> = (0..k).map(|i| (mix(&[nonce, index as u64, i as u64]) as u16) | 1).collect();
                 *kinds.entry("array".into()).or_insert(0) += 1;
                 ops_desc.push(format!("array {:#06x} {:04x?}", index, vals));
@@ -436,8 +445,11 @@ pub fn c16_case(rs: u64, _nonce: u64, replay: Option<Vec<u32>>) -> CaseOutcome {
         let n_mut = 1 + s.w.sim.tape.choose(3, "n_mut");
         let mut muts = Vec::new();
         for _ in 0..n_mut {
-            let m = match s.w.sim.tape.choose(9, "mutation") {
+            let m = match s.w.sim.tape.choose(if crate::tape::gen() >= 2 { 10 } else { 9 }, "mutation") {
                 0 => Mutation::None,
+                // A length field that claims somewhat more data than the object has (and than a
+                // small destination holds), but not more than the mailbox could carry.
+                9 => Mutation::SetLength((10 + len + 1 + s.w.sim.tape.choose(40, "len_over")).min(rlen as usize - 6) as u16),
                 1 => {
                     // Header fields: length low/high, type/counter, service, command, index, sub, size...
                     let off = s.w.sim.tape.pick(&[0usize, 1, 5, 6, 7, 8, 9, 10, 11, 12, 13, 14, 15], "field_off");
@@ -454,7 +466,7 @@ pub fn c16_case(rs: u64, _nonce: u64, replay: Option<Vec<u32>>) -> CaseOutcome {
             muts.push(m);
         }
         let endless = s.w.sim.tape.flag(15, 100, "endless");
-        let entry = s.w.sim.tape.choose(6, "entry_point");
+        let entry = s.w.sim.tape.choose(if crate::tape::gen() >= 2 { 9 } else { 6 }, "entry_point");
         {
             let coe = s.w.sim.seg.devices[0].coe.as_mut().unwrap();
             coe.od.insert((index, 0), (0..len).map(|i| i as u8 ^ 0x3c).collect());
@@ -466,7 +478,7 @@ pub fn c16_case(rs: u64, _nonce: u64, replay: Option<Vec<u32>>) -> CaseOutcome {
             coe.endless_payload = s.w.sim.tape.pick(&[2usize, 0, 6], "endless_payload");
             coe.info_fragment = s.w.sim.tape.pick(&[0usize, 2, 4, 6, 10], "info_fragment");
         }
-        let name = ["sdo_read::<u32>", "sdo_read::<[u8;64]>", "sdo_write", "sdo_read_array", "sdo_info_object_description_list", "sdo_info_object_quantities"][entry];
+        let name = ["sdo_read::<u32>", "sdo_read::<[u8;64]>", "sdo_write", "sdo_read_array", "sdo_info_object_description_list", "sdo_info_object_quantities", "sdo_read::<heapless::Vec<u8,8>>", "sdo_read::<heapless::String<16>>", "sdo_read::<heapless::Vec<u8,32>>"][entry];
         ops_desc.push(format!("{} on a {} byte object, policy {:?}, reply mutations {:?}, endless {}", name, len, policy, muts, endless));
         *classes.entry(format!("mbx_garbage/{}", name)).or_insert(0u64) += 1;
         th.add(entry as u64);
@@ -477,6 +489,9 @@ pub fn c16_case(rs: u64, _nonce: u64, replay: Option<Vec<u32>>) -> CaseOutcome {
             2 => s.w.sim.block_on(sd.sdo_write(index, 1, 0x1234u16)).map(|_| ()),
             3 => s.w.sim.block_on(sd.sdo_read_array::<u16, 4>(index)).map(|_| ()),
             4 => s.w.sim.block_on(sd.sdo_info_object_description_list(ObjectDescriptionListQuery::All)).map(|_| ()),
+            6 => s.w.sim.block_on(sd.sdo_read::<heapless::Vec<u8, 8>>(index, 0)).map(|_| ()),
+            7 => s.w.sim.block_on(sd.sdo_read::<heapless::String<16>>(index, 0)).map(|_| ()),
+            8 => s.w.sim.block_on(sd.sdo_read::<heapless::Vec<u8, 32>>(index, 0)).map(|_| ()),
             _ => s.w.sim.block_on(sd.sdo_info_object_quantities()).map(|_| ()),
         };
         if let Err(e) = res {
